@@ -537,7 +537,7 @@ def shrink(case):
 def plan(tier):
   if tier == 'quick':
     return {'batches': 48, 'timeout': 1500, 'l1_workloads': 1500, 'l2_workloads': 25, 'wall_budget_s': 240}
-  return {'batches': 480, 'timeout': 1800, 'l1_workloads': 12000, 'l2_workloads': 150, 'wall_budget_s': 3000}
+  return {'batches': 480, 'timeout': 1800, 'l1_workloads': 12000, 'l2_workloads': 150, 'wall_budget_s': 1500}
 
 
 def run_batch(seed, batch, tier, scratch):
